@@ -4,7 +4,7 @@ From Coquelicot Require Import Complex.
 From KV Require Import Base.Outcome C13.ModelOps C13.ModelEffects C13.ModelDelay C13.ModelTree
      C14.SpecLaws C14.ProofsLaws C14.Signals C14.SpecDelay C14.ProofsDelay
      C14.OpsC C14.SpecSVF C14.ProofsSVF C14.ProofsResponse C14.ProofsEQ C14.ProofsFreqResp
-     C14.SpecFreeverb C14.ProofsFreeverb C14.SpecCompressor C14.ProofsCompressor.
+     C14.SpecFreeverb C14.ProofsFreeverb C14.SpecCompressor C14.ProofsCompressor C14.ProofsDecay.
 From KV Require C13.Run.
 Import ListNotations.
 Open Scope ops_scope.
@@ -301,3 +301,22 @@ Theorem compressor_time_constants_R :
   (forall tau dt, 0 < tau -> 0 < dt -> comp_speed exp tau dt = smoothing tau dt /\ 0 < smoothing tau dt < 1) /\
   (forall o e0 tau dt n, follower o (smoothing tau dt) e0 n - o = exp (- (INR n * dt) / tau) * (e0 - o)).
 Proof. exact (conj comp_speed_R follower_time_constant). Qed.
+
+(** The reverb decays for feedback below 1: with the input silent, every comb of the network (model: array +
+    running index, in ANY state related to a delay-line history bounded by W) loses at least the factor
+    rho = f + d^N (1 - f) < 1 every two trips round its line: |out[n]| <= rho^(n / 2N) W.  (The four all-passes
+    that follow are fixed, stable filters; the decay of their output is measured, not proved.) *)
+Theorem reverb_comb_decays_R :
+  forall (N : nat) (f d : R) (c : @comb R) (s : line * R) (m : nat) (W : R),
+    (1 <= N)%nat -> 0 <= f < 1 -> 0 <= d < 1 ->
+    comb_rel N c s -> 0 <= W -> bounded N W W s ->
+    forall n, (n < m * (N + N))%nat ->
+      Rabs (nth n (snd (run_frames (comb_step f d) c (repeat 0 (m * (N + N))))) 0) <= rho N f d ^ (n / (N + N)) * W.
+Proof. exact model_comb_decays. Qed.
+
+(** ... rho is below 1, rho^m W falls below every eps, and every comb state is bounded by some W. *)
+Theorem reverb_decay_rate_R :
+  (forall (N : nat), (1 <= N)%nat -> forall f d : R, 0 <= f < 1 -> 0 <= d < 1 -> 0 <= rho N f d < 1) /\
+  (forall r W, 0 <= r < 1 -> 0 <= W -> forall eps, 0 < eps -> exists M, forall m, (M <= m)%nat -> r ^ m * W < eps) /\
+  (forall (N : nat) (s : line * R), exists W, 0 <= W /\ bounded N W W s).
+Proof. exact (conj rho_range (conj geometric_vanishes comb_state_bounded)). Qed.
